@@ -176,7 +176,7 @@ def ob_sql_gc_pass(k0: int, x0: int, k1: int, x1: int) -> str:
         val = pick(exp, x)
         kind = pick((1, 19999, 20000, 29999, 30000), k)
         tags = [["e", "x"]] + ([["expiration", val]] if val is not None else [])
-        ev = S.evj(i, False, kind, 10 + i, tags)
+        ev = S.evj(i, i == 1, kind, 10 + i, tags)   # different authors: the second event must not supersede the first
         S.drive(st.add_event(dict(ev)))
         evs.append((ev, val, kind))
     D.time = lambda: T
